@@ -53,7 +53,7 @@ SClose(a) == /\ pend[R(a)].op = "close" /\ ~pend[R(a)].done
 SFwd(f) == \E N \in FwdStep(M, T, f) : M' = N /\ UNCHANGED pend
 Silent == /\ T # <<>> /\ l <= Len(Trace)
           /\ \/ \E p \in Pipes(T) : SSend(p)
-             \/ \E a \in Leaves(T) : SRecv(a) \/ SClose(a)
+             \/ \E a \in Ids(T) : SRecv(a) \/ SClose(a)          \* leaves, and a source reader that is read before Copy is called
              \/ \E f \in Fwd(T) : SFwd(f)
           /\ UNCHANGED <<l, T>>
 Next == Case \/ Call \/ Ret \/ Silent
